@@ -371,26 +371,46 @@ def rule_rule(ctx) -> None:
     ctx.check(ok, "C12.RULE", f"{dc.qual}/decay-modes", dc.loc(), "decay = 1/(1+alpha*d^2) (attn_quad) or max(rate^d, floor) (exp_floor)", f"decay modes are {shapes}")
 
 
+def _with_callees(ctx, fn, depth: int = 2):
+    """fn and the repository functions it calls (resolved, same package), to `depth` levels - so that a block moved into a
+    helper is still examined"""
+    out, seen, frontier = [fn], {fn.qual}, [fn]
+    for _ in range(depth):
+        nxt = []
+        for f in frontier:
+            for c in walk_no_defs(f.node):
+                if isinstance(c, ast.Call):
+                    r = ctx.prog.callee(f, c)
+                    if r is not None and r[0] == "func" and r[1] not in seen and ctx.prog.has_func(r[1]):
+                        seen.add(r[1])
+                        g = ctx.func(r[1])
+                        out.append(g)
+                        nxt.append(g)
+        frontier = nxt
+    return out
+
+
 def rule_tag_values(ctx) -> None:
     """"seeds exactly the nodes whose label or tag occurs in the input text": a tag is a whole string.  Where the tags of a
     node are taken from its attrs and walked, a value that is itself a str is ONE tag - `list("zebra")` walks its characters,
     and the text "a" then seeds a node that is tagged "zebra"."""
-    fn = ctx.func(INNER)
-    rd = ctx.rd(fn)
-    cfg = ctx.cfg(fn)
     n_l = 0
-    for lp in [x for x in walk_no_defs(fn.node) if isinstance(x, ast.For) and isinstance(x.iter, ast.Name)]:
-        hn = [h for h in cfg.nodes if h.kind == "iter" and h.ast is lp]
-        if not hn:
-            continue
-        sl = rd.slice([lp.iter], hn[0])
-        if not any(isinstance(c, ast.Call) and call_tail(c) == "get" and c.args and const_str(c.args[0]) == "tags" for c in sl.calls()):
-            continue
-        n_l += 1
-        narrowed = any(isinstance(c, ast.Call) and dotted(c.func) == "isinstance" and len(c.args) == 2 and "str" in src(c.args[1]) for c in sl.calls())
-        ctx.check(narrowed, "C12.SEED", ctx.okey(f"{fn.qual}/string-tag-is-one-tag"), fn.loc(lp), "a tags value that is a plain string is wrapped, not iterated",
-                  f"the tags walked by `for {src(lp.target)} in {src(lp.iter)}` come from attrs['tags'] through list(..) with no test for a plain string: a node tagged \"zebra\" gets the tags "
-                  "'z','e','b','r','a' and is seeded by the text \"a\"")
+    # the collection loop may live in a helper the per-graph walk calls (extract-function refactor): same rule there
+    for fn in _with_callees(ctx, ctx.func(INNER)):
+      rd = ctx.rd(fn)
+      cfg = ctx.cfg(fn)
+      for lp in [x for x in walk_no_defs(fn.node) if isinstance(x, ast.For) and isinstance(x.iter, ast.Name)]:
+          hn = [h for h in cfg.nodes if h.kind == "iter" and h.ast is lp]
+          if not hn:
+              continue
+          sl = rd.slice([lp.iter], hn[0])
+          if not any(isinstance(c, ast.Call) and call_tail(c) == "get" and c.args and const_str(c.args[0]) == "tags" for c in sl.calls()):
+              continue
+          n_l += 1
+          narrowed = any(isinstance(c, ast.Call) and dotted(c.func) == "isinstance" and len(c.args) == 2 and "str" in src(c.args[1]) for c in sl.calls())
+          ctx.check(narrowed, "C12.SEED", ctx.okey(f"{fn.qual}/string-tag-is-one-tag"), fn.loc(lp), "a tags value that is a plain string is wrapped, not iterated",
+                    f"the tags walked by `for {src(lp.target)} in {src(lp.iter)}` come from attrs['tags'] through list(..) with no test for a plain string: a node tagged \"zebra\" gets the tags "
+                    "'z','e','b','r','a' and is seeded by the text \"a\"")
     ctx.floor("C12.SEED", "loops over a node's tags", n_l, 1)
 
 
@@ -433,6 +453,14 @@ def rule_seed_out(ctx) -> None:
     # labels list built from node labels and string tags only
     lab_args = {src(c.args[1]) for c in walk_no_defs(fn.node) if isinstance(c, ast.Call) and call_tail(c) == "_match_keywords" and len(c.args) > 1}
     apps = [x for x in walk_no_defs(fn.node) if isinstance(x, ast.Call) and call_tail(x) == "append" and src(x.func.value) in lab_args]
+    # the list may be built by a helper (`labels = _collect_labels(g)`): the same shape is required of the list the helper returns
+    for d in ctx.rd(fn).all_defs:
+        if d.kind == "assign" and d.name in lab_args and isinstance(d.value, ast.Call):
+            r = ctx.prog.callee(fn, d.value)
+            if r is not None and r[0] == "func" and ctx.prog.has_func(r[1]):
+                h = ctx.func(r[1])
+                rn = {x.value.id for x in walk_no_defs(h.node) if isinstance(x, ast.Return) and isinstance(x.value, ast.Name)}
+                apps += [x for x in walk_no_defs(h.node) if isinstance(x, ast.Call) and call_tail(x) == "append" and src(x.func.value) in rn]
     okl = len(apps) >= 2 and all(isinstance(a.args[0], ast.Tuple) and isinstance(a.args[0].elts[0], ast.Attribute) and a.args[0].elts[0].attr == "id" for a in apps)
     ctx.check(okl, "C12.SEED", f"{fn.qual}/label-sources", fn.loc(), "seed candidates are (node id, label) and (node id, string tag) pairs of the graph's own nodes",
               "seed candidates are not built from the graph's node labels/tags")
